@@ -3,6 +3,9 @@
 seed_dir contains patch.diff and demo.py.  Uses a scratch worktree outside /repo and /verif (removed afterwards)."""
 import json, os, subprocess, sys, tempfile, shutil, time
 
+ROOT = os.path.dirname(os.path.dirname(os.path.abspath(__file__)))      # the checks of THIS copy of /verif (a snapshot evaluates itself)
+
+
 def sh(cmd, **kw):
     return subprocess.run(cmd, shell=True, capture_output=True, text=True, **kw)
 
@@ -32,7 +35,7 @@ def main():
         res['checks'] = {}
         for p in props:
             t = time.time()
-            r = sh('cd /verif && VERIF_REPO={} VERIF_NOEVIDENCE=1 ./check {} --tier {}'.format(wt, p, tier))
+            r = sh('cd {} && VERIF_REPO={} VERIF_NOEVIDENCE=1 ./check {} --tier {}'.format(ROOT, wt, p, tier))
             lines = [l for l in r.stdout.split('\n') if l.startswith('  violated:')]
             res['checks'][p] = {'exit': r.returncode, 'secs': round(time.time() - t, 1), 'kinds': [l[12:160] for l in lines][:6]}
             if r.returncode == 2:
